@@ -5,6 +5,7 @@ import SemantivaModel.Driver.C04
 import SemantivaModel.Driver.C06
 import SemantivaModel.Driver.C07
 import SemantivaModel.Driver.C08
+import SemantivaModel.Driver.C09
 import SemantivaModel.Driver.C11
 import SemantivaModel.Driver.C12
 import SemantivaModel.Driver.C13
@@ -47,6 +48,8 @@ def dispatch (st : DState) (j : Json) : Except String (DState × Json) := do
     pure (st, ← C04.handle m j)
   else if m.startsWith "c06." then
     pure (st, ← C06.handle m j)
+  else if m.startsWith "c09." then
+    pure (st, ← C09.handle m j)
   else if m.startsWith "c07." then
     pure (st, ← C07.handle m j)
   else throw s!"unknown model op {m}"
